@@ -3,6 +3,7 @@ package beacon
 import (
 	"bytes"
 	"context"
+	"errors"
 	"fmt"
 
 	"github.com/drand/drand/v2/common"
@@ -23,9 +24,17 @@ type zzBase struct {
 	chain.Store
 	beacons []*common.Beacon
 	puts    []*common.Beacon
+	failAt  int // fail the k-th Put once (transient storage fault); 0 = never
+	calls   int
 }
 
+var errZZTransient = errors.New("zz: transient storage failure")
+
 func (s *zzBase) Put(_ context.Context, b *common.Beacon) error {
+	s.calls++
+	if s.failAt > 0 && s.calls == s.failAt {
+		return errZZTransient
+	}
 	cp := &common.Beacon{Round: b.Round, Signature: append([]byte(nil), b.Signature...), PreviousSig: append([]byte(nil), b.PreviousSig...)}
 	if b.PreviousSig == nil {
 		cp.PreviousSig = nil
